@@ -567,6 +567,11 @@ func colliderCase3(c *vlib.Case, n, queries int) {
 	for q := 0; q < queries; q++ {
 		r, rk := genRay3(rng, s)
 		cen, rad, bk := genBall3(rng, s)
+		if rng.Intn(8) == 0 {
+			// a radius computed as a difference (or passed through a mirroring scale) can come
+			// out negative: no triangle collides, so the hierarchy must not either
+			rad, bk = -rad*math.Pow(10, 2*rng.Float64()), bk+"-negative-radius"
+		}
 		seg, dex, sk := genSegment3(rng, s)
 		rect, tk := genRect3(rng, s)
 		qt, qk := genQueryTri3(rng, s)
